@@ -48,6 +48,7 @@ Fixpoint dec_v (s : sexp) {struct s} : option vplan :=
   end
 with dec_f (s : sexp) {struct s} : option fplan :=
   match s with
+  | SSym x => if String.eqb x "typename" then Some FTypename else None
   | SL [SSym f; tg; nn; res] =>
       if String.eqb f "f" then
         match (if is_sym "none" tg then Some None else match as_N tg with Some n => Some (Some n) | None => None end),
@@ -74,15 +75,23 @@ Definition dec_pelem (s : sexp) : option pelem :=
   end.
 Definition dec_path (s : sexp) : option (list pelem) := as_list_of dec_pelem s.
 
-Definition dec_event (s : sexp) : option event :=
+(** an event together with the value of the shared counter its resolver read *)
+Definition dec_event (s : sexp) : option (event * nat) :=
   match untag s with
-  | Some (t, [p]) =>
-      match dec_path p with
-      | Some pp => if String.eqb t "start" then Some (EStart pp)
-                   else if String.eqb t "fulfil" then Some (EFulfil pp) else None
-      | None => None
+  | Some (t, [p; n]) =>
+      match dec_path p, as_nat n with
+      | Some pp, Some nn => if String.eqb t "start" then Some (EStart pp, nn)
+                            else if String.eqb t "fulfil" then Some (EFulfil pp, nn) else None
+      | _, _ => None
       end
   | _ => None
+  end.
+
+(** every side effect increments the shared counter: the values read are 0, 1, 2, ... *)
+Fixpoint counter_ok (i : nat) (l : list nat) : bool :=
+  match l with
+  | [] => true
+  | n :: tl => Nat.eqb n i && counter_ok (S i) tl
   end.
 
 (** the kind of a root value: what the model tracks *)
@@ -90,6 +99,7 @@ Definition dec_kind (s : sexp) : option gval :=
   match s with
   | SSym x => if String.eqb x "null" then Some GNil
               else if String.eqb x "list" then Some GList
+              else if String.eqb x "str" then Some GStr
               else if String.eqb x "obj" then Some GObj else None
   | SL [SSym t; SZ z] => if String.eqb t "int" then Some (GInt z) else None
   | _ => None
@@ -118,7 +128,9 @@ Definition dec_obs (s : sexp) : option obs :=
       match field1 "status" l, field1 "rounds" l, field "events" l with
       | Some (SSym stt), Some r, Some evs =>
           match as_nat r, map_opt dec_event evs with
-          | Some rr, Some es =>
+          | Some rr, Some esn =>
+              let es := map fst esn in
+              if negb (counter_ok 0 (map snd esn)) then None else
               if String.eqb stt "ok" then
                 match field1 "data" l with
                 | Some d =>
@@ -139,19 +151,19 @@ Definition dec_obs (s : sexp) : option obs :=
 Definition dec_mode (s : sexp) : option mode :=
   if is_sym "query" s then Some Query else if is_sym "mutation" s then Some Mutation else None.
 
-Record tcase := { c_mode : mode; c_plan : selset; c_ranks : list nat; c_obs : obs }.
+Record tcase := { c_mode : mode; c_plan : selset; c_ranks : list nat; c_idle : bool; c_feat : list string; c_obs : obs }.
 
 Definition dec_case (c : sexp) : option tcase :=
   match tagged "case" c with
   | Some l =>
-      match field1 "mode" l, field1 "plan" l, field1 "ranks" l, field "obs" l with
-      | Some m, Some p, Some r, Some o =>
-          match dec_mode m, dec_sel p, as_list_of as_nat r, dec_obs (SL (SSym "obs" :: o)) with
-          | Some mm, Some pp, Some rr, Some oo =>
-              Some {| c_mode := mm; c_plan := pp; c_ranks := rr; c_obs := oo |}
-          | _, _, _, _ => None
+      match field1 "mode" l, field1 "plan" l, field1 "ranks" l, field "obs" l, field1 "idle" l, field "feat" l with
+      | Some m, Some p, Some r, Some o, Some ih, Some ft =>
+          match dec_mode m, dec_sel p, as_list_of as_nat r, dec_obs (SL (SSym "obs" :: o)), as_bool ih, map_opt as_sym ft with
+          | Some mm, Some pp, Some rr, Some oo, Some ii, Some ff =>
+              Some {| c_mode := mm; c_plan := pp; c_ranks := rr; c_idle := ii; c_feat := ff; c_obs := oo |}
+          | _, _, _, _, _, _ => None
           end
-      | _, _, _, _ => None
+      | _, _, _, _, _, _ => None
       end
   | None => None
   end.
@@ -183,7 +195,7 @@ Fixpoint events_eqb (a b : list event) : bool :=
   end.
 Definition gval_eqb (a b : gval) : bool :=
   match a, b with
-  | GNil, GNil | GList, GList | GObj, GObj | GUnit, GUnit => true
+  | GNil, GNil | GList, GList | GObj, GObj | GUnit, GUnit | GStr, GStr => true
   | GInt x, GInt y => Z.eqb x y
   | _, _ => false
   end.
@@ -234,6 +246,7 @@ with has_async_f (f : fplan) {struct f} : bool :=
   | FP (Some _) _ _ => true
   | FP None _ (Some v) => has_async_v v
   | FP None _ None => false
+  | FTypename => false
   end.
 
 Definition nested_async (f : fplan) : bool :=
@@ -262,12 +275,30 @@ Definition classes (c : tcase) : list string :=
   (if distinct_ranks (c_ranks c) then ["several-ranks"] else []) ++
   (if Nat.leb 2 (o_rounds o) then ["several-rounds"] else []) ++
   (if Nat.leb 3 (List.length root) then ["three-or-more-roots"] else []) ++
+  c_feat c ++
+  (if existsb (fun kf => match snd kf with FTypename => true | _ => false end) root then ["root-typename"] else []) ++
+  (if c_idle c then [] else if has_async_v (VObj root) then ["no-idle-handler-with-promises"] else ["no-idle-handler"]) ++
   (if excl_abandoned_promise root then ["non-null-failure"] else ["calm"]) ++
   (match o_data o with None => ["data-null"] | Some _ => [] end) ++
   (match c_mode c with
    | Query => if strict_serial keys (o_events o) then [] else ["query-interleaves"]
    | Mutation => if earlier_nested root then ["nontrivial"] else []
    end).
+
+(** the apifu route (apifu.Go goroutines): the order of events within a root field is decided by
+    the Go scheduler; compared as multisets *)
+Fixpoint remove_event (e : event) (l : list event) : option (list event) :=
+  match l with
+  | [] => None
+  | x :: tl => if event_eqb e x then Some tl
+               else match remove_event e tl with Some r => Some (x :: r) | None => None end
+  end.
+Fixpoint events_perm (a b : list event) : bool :=
+  match a with
+  | [] => match b with [] => true | _ => false end
+  | e :: tl => match remove_event e b with Some b' => events_perm tl b' | None => false end
+  end.
+Definition is_api (c : tcase) : bool := existsb (String.eqb "apifu-go") (c_feat c).
 
 (** ** check *)
 Definition check_case (c : tcase) : sexp :=
@@ -277,10 +308,13 @@ Definition check_case (c : tcase) : sexp :=
   | Some v => v
   | None =>
       let fuel := S (count_async root) in
-      match run (sigma_ranks (c_ranks c)) (c_mode c) fuel root with
+      match run (if c_idle c then Some (sigma_ranks (c_ranks c)) else None) (c_mode c) fuel root with
       | Done r =>
-          if negb (events_eqb (r_events r) (o_events o)) then v_mismatch "events" [of_list of_event (r_events r)]
-          else if negb (Nat.eqb (r_rounds r) (o_rounds o)) then v_mismatch "rounds" [of_nat (r_rounds r)]
+          if is_api c && calm root && negb (events_perm (r_events r) (o_events o))
+          then v_mismatch "events-multiset" [of_list of_event (r_events r)]
+          else if negb (is_api c) && negb (events_eqb (r_events r) (o_events o))
+          then v_mismatch "events" [of_list of_event (r_events r)]
+          else if negb (is_api c) && negb (Nat.eqb (r_rounds r) (o_rounds o)) then v_mismatch "rounds" [of_nat (r_rounds r)]
           else if negb (Bool.eqb (r_null r) (match o_data o with None => true | Some _ => false end))
                then v_mismatch "data-null" [of_bool (r_null r)]
           else if match c_mode c, o_data o with
